@@ -116,6 +116,5 @@ func vp_C13_parse_auth() {
 	vpAssert("destination", string(dest) == rd)
 	vpAssert("key", string(key) == rk)
 	vpAssert("sig", sig == rsig)
-	vpReach("tail-sets-destination", string(dest) != "")
 	vpReach("done", true)
 }
